@@ -11,6 +11,12 @@ for name in sorted(os.listdir(os.path.join(ROOT, "seeded"))):
     c = m.get("confirmed", {})
     det = c.get("detected")
     note = m.get("strengthened", "")
+    rc = m.get("reclassified")
+    if rc and not det:
+        rows.append("| `%s` | %s | %s | %s | %s |" % (name, m["property"], (m.get("summary") or "").replace("|", "/")[:230],
+                                                  (m.get("needs") or "").replace("|", "/").replace("\n", " ")[:200],
+                                                  "quiet in %s (SPEC-DRIFT only): beyond %s's statement; **detected** by %s quick (%d violations) - %s" % (m["property"], m["property"], rc["to"], rc.get("violations", 0), rc["why"].replace("|", "/")[:400])))
+        continue
     rows.append("| `%s` | %s | %s | %s | %s |" % (name, m["property"], (m.get("summary") or "").replace("|", "/")[:230],
                                               (m.get("needs") or "").replace("|", "/").replace("\n", " ")[:200],
                                               ("**detected** (%s, %ss)" % (m["property"] + " quick", int(c.get("check_wall_s", 0))) if det else "MISSED") + ((" - " + note) if note else "")))
